@@ -174,11 +174,13 @@ class WorkloadGenerator(Workload):
                     curr_num_ops = 1
 
                 prev_op = None
+                # tracked across the operators of the pipeline: only the very first
+                # segment is the I/O-heavy one, later operators draw from cpu_io_ratio
+                prev_seg = None
                 for i in range(curr_num_ops):
                     op = p.new_operator([prev_op] if prev_op else None)
                     # Segments are 1:1 with operators in current execution
                     curr_num_segs = 1
-                    prev_seg = None
                     for j in range(curr_num_segs):
                         # If first node, make it the most IO bound, else have it
                         # draw randomly from all other segment types
